@@ -223,6 +223,26 @@ impl Prop for C09 {
 	}
 
 	fn enumerate(tier: Tier, shard: usize, nshards: usize, f: &mut dyn FnMut(Case, bool) -> bool) -> Vec<&'static str> {
+		// huge segments, each followed on the same thread by a small path
+		{
+			let mut gi = 0usize;
+			for n in gen::huge_sizes(tier) {
+				let x = "A".repeat(n);
+				for (abs, segs) in [(false, vec![format!("1:{x}"), ".".to_string()]), (true, vec![x.clone(), "..".into(), "y".into(), x.clone(), ".".into()]), (false, vec!["..".into(), x.clone(), "".into(), "..".into()])] {
+					gi += 1;
+					if gi % nshards != shard {
+						continue;
+					}
+					let fam = if gi % 2 == 0 { Fam::Uri } else { Fam::Iri };
+					let e = if fam == Fam::Iri { Some(Embed { full: true, scheme: Some("s".into()), authority: None, query: Some("q".into()), fragment: None }) } else { None };
+					for c in [Case { fam, embed: e.clone(), abs, segs }, Case { fam, embed: e.clone(), abs: false, segs: vec!["x".into(), ".".into(), "y".into(), "..".into(), "z".into()] }, Case { fam, embed: None, abs: true, segs: vec!["a".into(), "..".into(), "b".into(), ".".into()] }] {
+						if !f(c, true) {
+							return vec![];
+						}
+					}
+				}
+			}
+		}
 		let alphabet = ["a", "b:c", "", ".", ".."];
 		let maxlen = tier.pick(6, 7);
 		let mut i = 0usize;
@@ -259,7 +279,7 @@ impl Prop for C09 {
 				}
 			}
 		}
-		vec!["all paths of <= L segments over {a, b:c, '', '.', '..'} x {absolute, relative}, stand-alone and in three embeddings"]
+		vec!["huge segments (1 MiB+3, 2 MiB; thorough: 64 KiB+1 .. 8 MiB+1) normalized by every route, each followed by small paths on the same thread", "all paths of <= L segments over {a, b:c, '', '.', '..'} x {absolute, relative}, stand-alone and in three embeddings"]
 	}
 
 	fn floors(_tier: Tier) -> Vec<(&'static str, u64)> {
